@@ -27,6 +27,12 @@ def _make(kind):
         return InjectedBase("injected")
     if kind == "kbi":
         return KeyboardInterrupt("injected")
+    if kind == "te":
+        return TypeError("injected")
+    if kind == "ae":
+        return AttributeError("injected")
+    if kind == "ke":
+        return KeyError("injected")
     if kind == "cancel":
         return asyncio.CancelledError("injected")
     raise ValueError(kind)
@@ -256,7 +262,7 @@ CALLS = {
     "w": (False, ["wb", "wc"]),
     "aw": (True, ["awb", "awc"]),
 }
-KINDS = ["exc", "base", "kbi"]
+KINDS = ["exc", "base", "kbi", "te", "ae", "ke"]   # ValueError, BaseException subclass, KeyboardInterrupt, TypeError, AttributeError, KeyError
 
 
 class Driver:
@@ -461,11 +467,11 @@ def check_scenario(drv, pristine, scen, acc, second=None):
             elif outcome[0] != "exc":
                 # an Exception raised by a value __repr__ may be absorbed by reprlib; the call must then end as without the fault
                 # (a normal return is only possible when the message was built for a precondition group that was later overruled)
-                if not (where.startswith("repr") and plan[2] == "exc" and summarize(outcome) == summarize(base_outcome)):
+                if not (where.startswith("repr") and plan[2] in ("exc", "te", "ae", "ke") and summarize(outcome) == summarize(base_outcome)):
                     viol("fault_swallowed", "fault {} at {!r}: the call returned normally".format(plan[2], where))
                     continue
             elif not chain_has(outcome[1], injected):
-                absorbed_ok = where.startswith("repr") and plan[2] == "exc" and type(outcome[1]).__name__ in ("ViolationError", "Viol")
+                absorbed_ok = where.startswith("repr") and plan[2] in ("exc", "te", "ae", "ke") and type(outcome[1]).__name__ in ("ViolationError", "Viol")
                 if not absorbed_ok:
                     viol("fault_replaced", "fault {} at {!r}: surfaced {!r} which neither is nor chains the injected exception".format(
                         plan[2], where, outcome[1]))
@@ -495,6 +501,12 @@ LIB_ENDINGS = [
     ("m(x, _KWARGS=1)", False, None, lambda ns, o, x: o.m(x, _KWARGS=1)),
     ("am(x, _ARGS=1)", True, None, lambda ns, o, x: o.am(x, _ARGS=1)),
     ("nest(x, _ARGS=1)", False, None, lambda ns, o, x: ns["nest"](x, _ARGS=1)),
+    ("f(x, result=1)", False, None, lambda ns, o, x: ns["f"](x, result=1)),
+    ("f(x, OLD=1)", False, None, lambda ns, o, x: ns["f"](x, OLD=1)),
+    ("af(x, result=1)", True, None, lambda ns, o, x: ns["af"](x, result=1)),
+    ("af(x, OLD=1)", True, None, lambda ns, o, x: ns["af"](x, OLD=1)),
+    ("m(x, result=1)", False, None, lambda ns, o, x: o.m(x, result=1)),
+    ("am(x, OLD=1)", True, None, lambda ns, o, x: o.am(x, OLD=1)),
     ("fz(x)", False, None, lambda ns, o, x: ns["fz"](x)),
     ("fz(x) first condition falsy", False, "zp0", lambda ns, o, x: ns["fz"](x)),
     ("afz(x)", True, None, lambda ns, o, x: ns["afz"](x)),
@@ -628,7 +640,7 @@ def run(tier, t0):
         rule="faulted call in (f, async af, K(), m, async am) x which condition is falsy (none or each one: reaches message building, "
              "error factories, value reprs) x EVERY boundary crossing of the fault-free run (condition, truth test, capture, "
              "error factory, __repr__, body, invariant, constructor, both halves of awaiting conditions/bodies) x fault kind "
-             "(Exception, BaseException subclass, KeyboardInterrupt; async: CancelledError raised inside, and throw/cancel/close "
+             "(ValueError, TypeError, AttributeError, KeyError, BaseException subclass, KeyboardInterrupt; async: CancelledError raised inside, and throw/cancel/close "
              "at every suspension of a hand-driven coroutine){}; after each: probe calls of every callable (all true + each "
              "condition falsy) in the same context, compared with the pristine-state observations; the surfaced exception must be "
              "or chain the injected one; non-trivial = every case".format(
